@@ -93,6 +93,6 @@ func init() {
 			}
 			return runPrograms(a, res, progOpts{name: "discriminating", prop: "C03", programs: n, gen: c03Discriminating, classify: c03Classify, seedOff: 3})
 		}, func(a lib.Args, res *lib.Result) error {
-			return runPrograms(a, res, progOpts{name: "random-acl-policy", prop: "C03", programs: tierN(a, 150, 4000), maxOps: 40, classify: c03Classify, seedOff: 33})
+			return runPrograms(a, res, progOpts{name: "random-acl-policy", prop: "C03", programs: tierN(a, 400, 6000), maxOps: 40, classify: c03Classify, seedOff: 33})
 		}}}
 }
